@@ -440,3 +440,50 @@ Example C15_parse_error_nonvacuous :
              T_Eof)
   /\ map tok_leaf (snd (select [] ex_src2_items)) = [(S_Whitespace, [10]); (S_RBrace, [125]); (S_Whitespace, [10])].
 Proof. vm_compute. repeat split; reflexivity. Qed.
+
+(** * The preprocessor model IS the source: coq/gen/GenPrep.v is regenerated from crates/syntax/src/preprocessor.rs on
+    every run (tools/translate/t_prep.py: every function rendered statement by statement in the shallow state-monad
+    embedding of model/PrepMonad.v; the calls on the inner `T: TokenStream` run the GENERATED lexer coq/gen/GenLexer.v).
+    Driven through the TokenStream protocol as prepdump.rs / ParserBase drive it (cursor, eat, cursor, take_error iff
+    Error; then macros()), the generated STREAMING preprocessor over a text yields, for EVERY text, exactly the entries
+    of the hand model Prep.prep_text over the raw token list (kinds, byte lengths, error messages) and its final macro
+    set.  Every theorem above therefore also holds of the regenerated rendering, and any semantic edit of
+    preprocessor.rs changes GenPrep.v and breaks this obligation. *)
+From TG.Gen Require GenLexer GenPrep.
+From TG.Model Require ScanMonad PrepMonad.
+From TG.Proofs Require GenLexerEq GenPrepEq.
+
+Theorem C15_model_is_source : forall txt : list N,
+  GenPrepEq.gen_prep_text txt = map GenPrepEq.prep_view (prep_text txt)
+  /\ GenPrepEq.gen_prep_macros txt = prep_macros txt.
+Proof. exact (fun txt => conj (GenPrepEq.gen_prep_text_eq txt) (GenPrepEq.gen_prep_macros_eq txt)). Qed.
+Check C15_model_is_source : forall txt : list N,
+  GenPrepEq.gen_prep_text txt = map GenPrepEq.prep_view (prep_text txt)
+  /\ GenPrepEq.gen_prep_macros txt = prep_macros txt.
+Print Assumptions C15_model_is_source.
+
+(** per call of `next_token`: from a generated state [g] related to a hand state [st] with the text [s] after the
+    cursor of the inner scanner ([GenPrepEq.sim]: macro set, preprocessor error slot, lexer error slot and
+    open_conditionals agree), if the hand model's [prep_next] on the raw tokens of [s] delivers (k, len, st', raw'),
+    then the generated function returns k, consumes exactly [len] bytes [w] of the text, and ends in a state related
+    to st' whose remaining text [s'] has exactly the remaining raw tokens *)
+Theorem C15_prep_next_is_source : forall (g : PrepMonad.pp) (st : pstate) (s : list N) k len st' raw',
+  GenPrepEq.sim g st s -> prep_next st (raw_lex s) = (k, len, st', raw') ->
+  exists g' w s', GenPrep.gp_next_token g = (PrepMonad.FNorm k, g') /\ GenPrepEq.sim g' st' s' /\ raw' = raw_lex s'
+    /\ s = w ++ s' /\ len = bytes w
+    /\ ScanMonad.sc_cursor (ScanMonad.l_s (PrepMonad.p_ts g')) = ScanMonad.sc_cursor (ScanMonad.l_s (PrepMonad.p_ts g)) + len.
+Proof. exact GenPrepEq.gen_prep_next_eq. Qed.
+Check C15_prep_next_is_source : forall (g : PrepMonad.pp) (st : pstate) (s : list N) k len st' raw',
+  GenPrepEq.sim g st s -> prep_next st (raw_lex s) = (k, len, st', raw') ->
+  exists g' w s', GenPrep.gp_next_token g = (PrepMonad.FNorm k, g') /\ GenPrepEq.sim g' st' s' /\ raw' = raw_lex s'
+    /\ s = w ++ s' /\ len = bytes w
+    /\ ScanMonad.sc_cursor (ScanMonad.l_s (PrepMonad.p_ts g')) = ScanMonad.sc_cursor (ScanMonad.l_s (PrepMonad.p_ts g)) + len.
+Print Assumptions C15_prep_next_is_source.
+
+(** non-vacuity: a related pair of states and a step of the hand model from it ("#ifdef A": one PreProcessor token
+    of 8 bytes, one open conditional afterwards) *)
+Example C15_prep_next_is_source_nonvacuous :
+  GenPrepEq.sim (GenPrep.gp_new (GenLexer.g_new [35; 105; 102; 100; 101; 102; 32; 65])) pinit [35; 105; 102; 100; 101; 102; 32; 65]
+  /\ exists k len st' raw', prep_next pinit (raw_lex [35; 105; 102; 100; 101; 102; 32; 65]) = (k, len, st', raw')
+       /\ k = T_PreProcessor /\ len = 8 /\ openc st' = 1.
+Proof. exact GenPrepEq.sim_nonvacuous. Qed.
